@@ -43,6 +43,7 @@ Ev == Traces[tid].events[l]
 Step(e) ==
     CASE e.op = "SetAttr"  -> SetAttr(e.n, <<e.p, e.k>>, FixV(e.v))
       [] e.op = "SetItem"  -> SetItem(e.n, <<e.p, e.k>>, FixV(e.v))
+      [] e.op = "SetDictItem" -> SetDictItem(e.n, <<e.p, e.k>>, e.dk, FixV(e.v))
       [] e.op = "Ctor"     -> Ctor(e.n, [i \in DOMAIN e.kw |-> <<e.kw[i][1], FixV(e.kw[i][2])>>])
       [] e.op = "Load"     -> Load(e.n, FixV(e.tree))
       [] e.op = "Reset"    -> Reset(e.n, <<e.p, e.k>>)
@@ -93,13 +94,14 @@ Report ==
 \* state invariants, evaluated on every observed state (a state CONSTRAINT: TLC evaluates
 \* unprimed operator applications much faster than primed ones)
 BadState ==
-    {n \in {"C01_AllValid", "C12_Fresh", "C11_ReturnImplies", "C11_CollectIffRaise", "C11_ItemsHeld", "C15_Error"} :
+    {n \in {"C01_AllValid", "C12_Fresh", "C11_ReturnImplies", "C11_CollectIffRaise", "C11_ItemsHeld", "C15_Error", "C15_DictItemError"} :
         CASE n = "C01_AllValid" -> ~C01_AllValid
           [] n = "C12_Fresh"    -> ~C12_Fresh
           [] n = "C11_ReturnImplies"   -> ~C11_ReturnImplies
           [] n = "C11_CollectIffRaise" -> ~C11_CollectIffRaise
           [] n = "C11_ItemsHeld"       -> ~C11_ItemsHeld
-          [] n = "C15_Error"           -> ~C15_Error}
+          [] n = "C15_Error"           -> ~C15_Error
+          [] n = "C15_DictItemError"   -> ~C15_DictItemError}
 ReportState ==
     l > 1 => PrintT(<<"TRACE", ToJson([t |-> tid, l |-> l - 1, bo |-> {}, bi |-> BadState, st |-> TRUE])>>)
 
